@@ -110,6 +110,8 @@ func cmdSelftest(args []string) {
 			if kf, err := os.ReadFile(filepath.Join(*verif, "KNOWN_FINDINGS.txt")); err == nil {
 				os.WriteFile(filepath.Join(sv, "KNOWN_FINDINGS.txt"), kf, 0o644)
 			}
+			// the replay tests of known findings
+			exec.Command("cp", "-r", filepath.Join(*verif, "known"), filepath.Join(sv, "known")).Run()
 			cmd := exec.Command(self, "check", m.Property, "--repo", scratch, "--verif", sv, "--tier", "quick")
 			out, _ := cmd.CombinedOutput()
 			code := cmd.ProcessState.ExitCode()
